@@ -4,21 +4,23 @@ from vc.gen import Fn, Unit
 from contracts import core
 from contracts import C04 as c04
 from contracts import C05 as c05
+from contracts import C01 as c01
+from contracts import C11m as c11m
 from contracts.core import VEC, MAT, IM, IV
 
 PRE = ('fax_l0', 'fmeth', 'stdspec', 'l1')
 BC = ('l0', 'l1_arith', 'l1_fun', 'ax_vec_from_refl', 'ax_f64_cloned')
 MV = 'distributions::multivariatenormal::'
 
-SPEC = c05.SPEC + c05.DOT_WFD + c04.RED_SPEC + r'''
-/// outcome of the (necessary, not sufficient) positive-definiteness test of the stored covariance matrix
-pub uninterp spec fn pd_check(m: Matrix) -> bool;
+SPEC = c05.SPEC + c05.DOT_WFD + c04.RED_SPEC + c01.SYM_SPEC + c11m.PD_SPEC + r'''
+/// outcome of the (necessary, not sufficient) positive-definiteness test of the stored covariance matrix: square, symmetric within epsilon, positive diagonal
+pub open spec fn pd_check(m: Matrix) -> bool { m.nrows == m.ncols && pd_test(m.data.v@, m.nrows as int) }
 /// object invariant established by MVN::new: k x k cached inverse, positive determinant, covariance passes the test
 pub open spec fn mvn_inv(s: MVN) -> bool {
     let k = s.mean.v@.len();
     0 < k <= i32max() && k * k <= i32max() && wfd(s.inverse_covariance_matrix.nrows, s.inverse_covariance_matrix.ncols, s.inverse_covariance_matrix.data.v@.len())
     && s.inverse_covariance_matrix.nrows == k && s.inverse_covariance_matrix.ncols == k
-    && pd_check(s.covariance_matrix) && rv(s.covariance_determinant) > 0real
+    && wf(s.covariance_matrix) && pd_check(s.covariance_matrix) && rv(s.covariance_determinant) > 0real
 }
 /// d = x - mu, w = Sigma^-1 d, q = d . w   (the quadratic form (x-mu)^T Sigma^-1 (x-mu))
 pub open spec fn is_quad(q: real, x: Seq<f64>, s: MVN) -> bool {
@@ -29,7 +31,7 @@ pub open spec fn is_quad(q: real, x: Seq<f64>, s: MVN) -> bool {
 pub proof fn lemma_powi_pos(x: real, n: int) requires x > 0real ensures r_powi(x, n) > 0real decreases n
 { if n > 0 { lemma_powi_pos(x, n - 1); lemma_mul_pos(x, r_powi(x, n - 1)); } }
 '''
-is_pd = Fn(IM + 'is_positive_definite', ret='r', level='A', ensures=['A.is_positive_definite:: r == pd_check(*self)'])
+is_pd = c11m.mpd      # proved in unit C01_matrix_predicates
 
 DIFF = {'params': 'i: usize', 'ret': 'o: f64', 'requires': ['i < x@.len()', 'x@.len() == self_.mean.v@.len()'],
         'ensures': ['o == f_sub(x@[i as int], self_.mean.v@[i as int])']}
